@@ -33,9 +33,9 @@ rc, t = sh('/venv/bin/python -m pytest -q -p no:cacheprovider glom/test 2>&1 | g
 meta['tests_with_change']['failed_ids'] = [l.split()[1] for l in t.strip().splitlines() if l.startswith('FAILED')]
 # 2. demonstration with and without the change
 rc1, d1 = sh('/venv/bin/python DEMO.py', wt, 300)
-sh('git stash', wt)
+sh('git apply -R %s/patch.diff' % out, wt)          # (git stash is shared between worktrees: not used)
 rc0, d0 = sh('/venv/bin/python DEMO.py', wt, 300)
-sh('git stash pop', wt)
+sh('git apply %s/patch.diff' % out, wt)
 meta['demo_exit_with_change'] = rc1
 meta['demo_exit_original'] = rc0
 meta['demo_output_with_change'] = d1[-1500:]
